@@ -208,7 +208,26 @@ pub proof fn lemma_first_some(v: Vec<Reference<Statement>>, index: usize, offset
 ; proof { lemma_first_some(b.statements, *index, offset, tokens@, |s: Reference<Statement>| call_at(s.reference, *index, (offset + s.offset) as usize, tokens@), 0); } r_ }
 //@end
 
-//~not_decided the callee's declared signature and parameter list shown (Display / format!, symbol table lookup), which procedure contains the cursor (find_map over global declarations in the async handler), hover
+/// "the call statement enclosing the cursor" at procedure level: the first statement of the procedure, in source order, that contains one
+//@extract lsp4spl/src/features/signature_help.rs :: fn find_call_stmt
+//@ rewrite find_map_first
+//@ ret r
+//@ sig
+    requires forall|i: int| 0 <= i < pd.statements@.len() ==> offset + (#[trigger] pd.statements@[i]).offset <= usize::MAX && calls_ok(pd.statements@[i].reference, (offset + pd.statements@[i].offset) as usize, tokens@),
+    ensures same_call(r, call_in(pd.statements, *index, offset, tokens@, 0)), //# find_call_stmt::first_statement_of_the_procedure_with_a_call_around_the_cursor
+//@ closure |r| : &'a Reference<Statement>
+ -> (out: Option<(&'a CallStatement, usize)>)
+                requires offset + r.offset <= usize::MAX && calls_ok(r.reference, (offset + r.offset) as usize, tokens@),
+                ensures same_call(out, call_at(r.reference, *index, (offset + r.offset) as usize, tokens@)),
+//@ after_closure |r|
+, Ghost(|s: Reference<Statement>| call_at(s.reference, *index, (offset + s.offset) as usize, tokens@))
+//@ before "find_map_first(&pd.statements"
+let r_ = 
+//@ at_end
+; proof { lemma_first_some(pd.statements, *index, offset, tokens@, |s: Reference<Statement>| call_at(s.reference, *index, (offset + s.offset) as usize, tokens@), 0); } r_
+//@end
+
+//~not_decided the callee's declared signature and parameter list shown (Display / format!, symbol table lookup), which procedure contains the cursor (find_map over global declarations in the async handler), the slice `tokens[call_stmt.to_range().shift(offset)]` handed to get_active_param there, hover
 pub proof fn witness_signature() {
     let s: Seq<Token> = Seq::empty();
     assert(sorted_by_start(s));
